@@ -226,6 +226,24 @@ func (ff *FuncFacts) Prune(assume ...Fact) *FuncFacts {
 			continue
 		}
 		c := ff.T.Cond(iff.Cond)
+		// arithmetic implication: the assumptions decide an integer comparison
+		if c.Op == "LT" && len(assume) > 0 {
+			known := ff.T.ineqs(FactSet(assume))
+			x, y := ff.T.affOfTerm(c.A), ff.T.affOfTerm(c.B)
+			lt := y.Sub(x)
+			lt.C--                                // y - x - 1 >= 0  ⇔ x < y
+			ge := x.Sub(y)                        // x - y >= 0      ⇔ ¬(x < y)
+			holds, fails := proveGE0(lt, known, 3), proveGE0(ge, known, 3)
+			if !c.Pos {
+				holds, fails = fails, holds
+			}
+			if holds && !fails {
+				n.removed[[2]int{b.Index, b.Succs[1].Index}] = true
+			}
+			if fails && !holds {
+				n.removed[[2]int{b.Index, b.Succs[0].Index}] = true
+			}
+		}
 		for _, a := range assume {
 			if c == a { // condition known true → false edge impossible
 				n.removed[[2]int{b.Index, b.Succs[1].Index}] = true
